@@ -83,6 +83,17 @@ class SynMap:
     def __contains__(self, k):
         return self._k(k) in self._d
 
+    def __delitem__(self, k):
+        del self._d[self._k(k)]
+
+    def pop(self, k, *default):
+        kk = self._k(k)
+        if kk in self._d:
+            return self._d.pop(kk)[1]
+        if default:
+            return default[0]
+        raise KeyError(k)
+
     def __len__(self):
         return len(self._d)
 
